@@ -145,9 +145,9 @@ func (g *tplGen) elem(d int, condKind string) string {
 	case 0:
 		tag, kind = g.tp+"block", "block"
 	case 1:
-		tag, kind = r.pick([]string{"br", "img", "input", "hr"}), "void"
+		tag, kind = r.pick([]string{"br", "img", "input", "hr", "BR", "Img", "INPUT", "hR"}), "void" // (element names are case-insensitive)
 	case 2:
-		tag, kind = r.pick([]string{"script", "textarea", "title", "style"}), "raw"
+		tag, kind = r.pick([]string{"script", "textarea", "title", "style", "Script", "TEXTAREA", "Title"}), "raw"
 	}
 	var as []string
 	nd := 0
